@@ -151,6 +151,12 @@ def analyse(unit, res, line_map):
             if (s.get('label') or '').startswith('at this exit') or (s.get('label') or '').startswith('at this call'):
                 exit_line = s['line_start']
                 exit_txt = ' '.join(x['text'].strip() for x in s['text'])
+        # a failed callee precondition: the clause is the span labelled `failed precondition`; the primary span
+        # (the call) is reported as the exit
+        for s in spans:
+            if (s.get('label') or '').startswith('failed precondition'):
+                exit_txt = exit_txt or text
+                text = ' '.join(x['text'].strip() for x in s['text'])
         owner = None
         for s in spans:
             o = owner_of_line(line_map, s['line_start'])
